@@ -61,6 +61,14 @@ def worker_main():
         r['plugin'] = {C43.MON: c43mon.per_job({}, r)}
         cls, disc = C43.classify({'valid': valid, 'family': 'reduce', 'cat': 'reduce'}, r, deliberate)
         ks = {k for k, _ in disc}
+        if cls == 'ok' and key.startswith('c-rejected'):
+            import subprocess, sysconfig, re
+            rr = subprocess.run(['gcc', '-fsyntax-only', '-w', '-I' + sysconfig.get_paths()['include'], r['c']],
+                                capture_output=True, text=True)
+            if rr.returncode != 0:
+                first = [l for l in rr.stderr.splitlines() if 'error' in l][:1]
+                msg = re.sub(r'^[^:]*:\d+:\d+: ', '', first[0]) if first else rr.stderr[-200:]
+                ks.add('c-rejected:%s' % C43.norm_c_msg(msg))
         cache[data] = (ks, valid)
         return ks, valid
 
